@@ -271,6 +271,8 @@ def plan_C07(q, seed):
     jobs = [gen_job("diff", "NOADOPT", 300000 if q else 8000000, time_limit=30 if q else 500)]
     jobs += [e2(gen_job("diff", "NOADOPT", 30000 if q else 600000, time_limit=20 if q else 300))]
     jobs += [e3(gen_job("diff", "NOADOPT", 100000, extra=["--len", "40"], lo=1 << 20), 40 if q else 600)]
+    for j in jobs:
+        j["class"] = "DIFF"  # a process death in a differential run is a difference to std::rc (which survives)
     return {
         "level": "translation_validation",
         "jobs": jobs,
@@ -311,6 +313,9 @@ def plan_C09(q, seed):
 
 def plan_C10(q, seed):
     jobs = [gen_job("script", "SCRIPT", 150000 if q else 3000000, time_limit=30 if q else 500)]
+    # the same on shapes where some stored handles were dropped without unadopt (stale records are allowed
+    # by the documentation; destructions explained by the known C13 finding are reported there, not here)
+    jobs += [gen_job("script", "SCRIPT", 60000 if q else 1200000, time_limit=20 if q else 300, extra=["--allow-stale", "--elide-base"], label="script-SCRIPT-stale-e1")]
     jobs += [e2(gen_job("script", "SCRIPT", 20000 if q else 400000, time_limit=20 if q else 300))]
     jobs += [e3(gen_job("script", "SCRIPT", 100000, lo=1 << 20), 40 if q else 600)]
     return {
@@ -378,19 +383,21 @@ def plan_C15(q, seed):
     if q:
         sizes = [("ring", 1000), ("ring", 10000), ("ring", 100000), ("chords", 1000), ("chords", 100000),
                  ("selfmix", 1000), ("selfmix", 100000), ("clique", 100), ("clique", 300),
-                 ("hub", 10000), ("hub", 40000), ("hub", 160000), ("chords", 25000), ("chords", 400000)]
+                 ("hub", 10000), ("hub", 40000), ("hub", 160000), ("chords", 25000), ("chords", 400000),
+                 ("sharedleaf", 3001), ("sharedleaf", 48001), ("aftermath", 200000)]
         stacks = [128]
         growth = [("hub", 40000, 160000), ("chords", 25000, 100000), ("chords", 100000, 400000), ("ring", 10000, 100000)]
     else:
         sizes = [(s, n) for s in ("ring", "chords", "selfmix") for n in (1000, 3000, 10000, 30000, 100000, 300000)]
         sizes += [("clique", n) for n in (50, 100, 200, 400, 600)]
         sizes += [("hub", n) for n in (10000, 40000, 160000, 640000)] + [("chords", 75000), ("chords", 1200000)]
+        sizes += [("sharedleaf", n) for n in (3001, 12001, 48001, 192001)] + [("aftermath", 50000), ("aftermath", 300000)]
         stacks = [64, 128]
         growth = [("hub", 40000, 160000), ("hub", 160000, 640000), ("chords", 75000, 300000), ("chords", 300000, 1200000), ("ring", 30000, 300000), ("selfmix", 30000, 300000)]
     return {
         "jobs": [{"kind": "scale", "engine": "e1", "sizes": sizes, "stacks": stacks, "label": "scale-e1", "args": [], "lo": 0, "hi": 0, "seeds": [seed, seed + 1] if not q else [seed], "growth": growth},
                  {"kind": "scale", "engine": "e3", "sizes": [("ring", 24), ("chords", 24), ("selfmix", 30), ("clique", 8)], "stacks": [128], "label": "scale-e3", "args": [], "lo": 0, "hi": 0, "seeds": [seed]}],
-        "rule": "one orphanable group of N objects (ring, ring + N/2 random chords, clique, ring with self-adoptions through a clone and through the same handle) is built by moving handles so that exactly one drop triggers exactly one trace, then collected on a thread with a 64/128 KiB stack in a child process; the child must complete, trace counters (H3) must satisfy generous linear bounds (expansions <= 2N, pops <= 2(N+E)+1, entries scanned <= 4E+2N; the current algorithm needs N, pairs+1 and 2*pairs), all N members destroyed, destructor nesting depth must stay 1; CPU time of the collecting thread must grow linearly between 4N and 16N (hub and chord shapes keep many objects pending at once; verdict only if the growth factor exceeds 3x linear AND the per-element cost exceeds 5 us, re-measured once). 'Any size' is restated as this bounded scaling experiment; wall time is recorded as evidence only. Distinct = distinct (shape, N, stack, seed)",
+        "rule": "one orphanable group of N objects (ring, ring + N/2 random chords, clique, hub, ring whose members all adopt one shared leaf, ring with self-adoptions through a clone and through the same handle; 'aftermath': 400 two-object cycles before and after a large collection in the same process must cost the same) is built by moving handles so that exactly one drop triggers exactly one trace, then collected on a thread with a 64/128 KiB stack in a child process; the child must complete, trace counters (H3) must satisfy generous linear bounds (expansions <= 2N, pops <= 2(N+E)+1, entries scanned <= 4E+2N; the current algorithm needs N, pairs+1 and 2*pairs), all N members destroyed, destructor nesting depth must stay 1; CPU time of the collecting thread must grow linearly between 4N and 16N (hub and chord shapes keep many objects pending at once; verdict only if the growth factor exceeds 3x linear AND the per-element cost exceeds 5 us, re-measured once). 'Any size' is restated as this bounded scaling experiment; wall time is recorded as evidence only. Distinct = distinct (shape, N, stack, seed)",
         "assumptions": ["bounded restatement of an unbounded claim: N up to 3*10^5 (clique: 600)", "hooks H3 count what the trace does; payload destructor measures nesting"],
     }
 
@@ -401,6 +408,10 @@ def plan_C16(q, seed):
         gen_job("deaddrop", "DEAD", 16000 if q else 300000, time_limit=30 if q else 400),
         # a handle that escaped from a destructor (allocation kept by a Weak) cloned after the collection returned
         gen_job("deadclonelate", "DEAD", 8000 if q else 150000, time_limit=20 if q else 300),
+        # the clone happens while another member's destructor panic is unwinding; and after the destructor
+        # itself created and dropped a Weak from the dead handle
+        gen_job("deadclonepanic", "DEAD", 8000 if q else 150000, time_limit=20 if q else 300),
+        gen_job("deadcloneafterweak", "DEAD", 8000 if q else 150000, time_limit=20 if q else 300),
         e2(gen_job("deadclone", "DEAD", 2000 if q else 40000, time_limit=20 if q else 200)),
         e2(gen_job("deaddrop", "DEAD", 2000 if q else 40000, time_limit=20 if q else 200)),
         {"kind": "miri-child", "engine": "e3", "count": 12 if q else 200, "label": "deadclone-e3", "args": [], "lo": 0, "hi": 0},
